@@ -983,6 +983,11 @@ func (a *A) ruleBufferArrivalOrder(W *types.Named) {
 				_ = al
 				return true
 			}
+			// buffer[:0]: the in-place filter idiom re-uses the backing array and keeps no element;
+			// shape/in-place-filter judges that it appends at most one element per element read
+			if isBufLoad(x.X) && x.Low == nil && isZeroConst(x.High) {
+				return true
+			}
 			return fresh(x.X, depth+1)
 		case *ssa.Phi:
 			for _, e := range x.Edges {
@@ -1053,7 +1058,7 @@ func (a *A) ruleBufferArrivalOrder(W *types.Named) {
 						return
 					}
 				}
-				if x.High != nil {
+				if x.High != nil && !(x.Low == nil && isZeroConst(x.High)) {
 					okHigh := false
 					if bo, ok := x.High.(*ssa.BinOp); ok && bo.Op == token.SUB {
 						if k, ok := bo.Y.(*ssa.Const); ok && k.Int64() == 1 {
@@ -1069,7 +1074,7 @@ func (a *A) ruleBufferArrivalOrder(W *types.Named) {
 						return
 					}
 				}
-				a.Ok(construct, x.Pos(), "buffer[:len-1] removes the row appended by this call")
+				a.Ok(construct, x.Pos(), "buffer[:len-1] removes the row appended by this call, or buffer[:0] starts an in-place filter")
 			case *ssa.IndexAddr:
 				if !isBufLoad(x.X) {
 					return
@@ -1101,4 +1106,9 @@ func (a *A) ruleBufferArrivalOrder(W *types.Named) {
 	if n == 0 {
 		a.Und(wn+".data", token.NoPos, "no use of the row buffer found")
 	}
+}
+
+func isZeroConst(v ssa.Value) bool {
+	k, ok := v.(*ssa.Const)
+	return ok && k.Value != nil && k.Int64() == 0
 }
